@@ -387,3 +387,12 @@ Definition op_acts_on (o : opname) : tcls :=
   | Op_PMX_Insertion_Swap | Op_Insertion_Swap => KPerm
   | Op_SSX_Replace | Op_Replace => KSubset
   end.
+
+(* ---------------- Real.rand for very wide bounds (types.py: the guard of fix 143937a) ---------------- *)
+(* when max_value - min_value overflows, Real.rand (and UM.um_mutation, fix f6dc0d6) interpolate
+     r = random.random();  min_value * (1.0 - r) + max_value * r
+   instead of random.uniform(min_value, max_value) = min + (max - min) * r, whose width is inf.
+   Exact-arithmetic model over Q (rounding is not modelled; the oracle samples the float code). *)
+From Coq Require Import QArith.
+Open Scope Z_scope.
+Definition rand_real_interp (lb ub r : Q) : Q := (lb * (1 - r) + ub * r)%Q.
